@@ -127,6 +127,47 @@ def dump_fn(flname, directed, nty, ety):
 '''
 
 
+PLAUSIBLE = ["NODES", "EDGES", "N", "E", "K", "LEN", "COUNT", "CAP", "SIZE"]
+
+
+def macro_item_names(repo, flname):
+    """names of items (const / static / fn / struct / type) defined inside the bodies of a flavour's macros: items are
+    not hygienic in macro_rules!, so an invocation whose arguments mention a caller's item of the same name would
+    silently get the macro's one"""
+    try:
+        src = open(os.path.join(repo, "src", flname, "graph_macros.rs")).read()
+    except OSError:
+        return []
+    src = re.sub(r"//[^\n]*", "", src)
+    names = []
+    for m in re.finditer(r"\b(const|static|fn|struct|type)\s+([A-Za-z_][A-Za-z0-9_]*)", src):
+        if m.group(2) not in names and m.group(2) != "_":
+            names.append(m.group(2))
+    return names
+
+
+def named_invocations(flname, names):
+    """invocations whose keys and values are written with caller constants (named like items of the macro bodies, and a
+    few plausible names): [(const declarations, form, listed as written, listed as denoted)]"""
+    out = []
+    for j, nm in enumerate(names):
+        a = 1 + j % 3   # the constant stands for key `a` (an edge target and a listed node) and for edge value / node value 7
+        decl = f"const {nm}: usize = {a};"
+        written = [((0, 0), [(nm, 0)]), ((nm, 0), []), ((5, 0), [(0, 0), (nm, 0)])]
+        denoted = [((0, 0), [(a, 0)]), ((a, 0), []), ((5, 0), [(0, 0), (a, 0)])]
+        out.append((decl, 1, written, denoted))
+    return out
+
+
+def rust_invocation_named(flname, form, listed):
+    head = {1: "(usize)", 2: "(usize, i64)", 3: "(usize) => [u32]", 4: "(usize, i64) => [u32]"}[form]
+    parts = []
+    for (k, v), edges in listed:
+        lst = ", ".join(str(t) for t, _ in edges)
+        parts.append(f"({k}) => [{lst}]")
+    return f"{flname}![ {head} " + " ".join(parts) + " ]"
+
+
 def generate(root, seed, per_form, small=True):
     """writes macros/src/bin/<fl>.rs and returns {fl: [(id, form, listed, bad)]}"""
     rng = random.Random(seed)
@@ -180,6 +221,19 @@ def generate(root, seed, per_form, small=True):
                 main.append(f'    run("{fid}", "", &{order!r}, &|o| {fid}(o));')
                 cases.append((fid, form, listed, bad))
                 i += 1
+        # keys written as caller constants: named like the items defined in the macro bodies (none on a hygienic macro)
+        # plus a fixed list of plausible names
+        repo = os.environ.get("VERIF_REPO", "/repo")
+        names = [n for n in macro_item_names(repo, flname)] + PLAUSIBLE
+        for j, (decl, form, written, denoted) in enumerate(named_invocations(flname, names)):
+            order = []
+            for (k, _), _e in denoted:
+                if k not in order:
+                    order.append(k)
+            fid = f"c{j}"
+            src.append(f'fn {fid}(order: &[usize]) -> (usize, String) {{\n    {decl}\n    let g: gdsl::{flname}::Graph<usize, (), ()> = {rust_invocation_named(flname, form, written)};\n    dump_u_u(&g, order)\n}}\n')
+            main.append(f'    run("{fid}", "", &{order!r}, &|o| {fid}(o));')
+            cases.append((fid, form, denoted, None))
         main.append("}")
         with open(os.path.join(bind, fl + ".rs"), "w") as f:
             f.write("\n".join(src) + "\n" + "\n".join(main) + "\n")
